@@ -538,7 +538,7 @@ class FlexAnimTrack:
             for sample in self.dir_track:
                 curve = f' "{sample.curve_type}"' if sample.curve_type != default_curve else ''
                 file.write(f'{indent}   {sample.time} {sample.value}{curve}\n')
-            file.write(f'{indent}  }}\n')
+            file.write(f'{indent}   }}\n')
 
 
 # Using a Literal here means Event.__init__() doesn't allow Loop/Speak/Gesture as the type,
@@ -1045,6 +1045,7 @@ class Event:
             file.write(f'{indent} flexanimations samples_use_time{curve}\n{indent}  {{\n')
             for track in self.flex_anim_tracks:
                 track.export_text(file, indent, default_curve)
+            file.write(f'{indent}  }}\n')
 
         if isinstance(self, LoopEvent):
             file.write(f'{indent} loopcount "{self.loop_count}"\n')
